@@ -104,9 +104,24 @@ def run(case, names=("H_tilde", "U", "U†"), extra_kwargs=None, want_internal=F
     if case.get("atol") is not None:
         kw["atol"] = case["atol"]
     kw.update(extra_kwargs or {})
+    Hin = dict(H)
+    one_subs = None
+    if case.get("present") == "expr" and case["fmt"] == "sympy":
+        # one sympy Matrix that depends polynomially on the perturbative symbols (the library Taylor-expands it);
+        # the symbol names are in reverse alphabetical order, the order of the parameters is the order of the list
+        syms = [sympy.Symbol(chr(ord("z") - i) + "_p", real=True) for i in range(case["nparam"])]
+        Hin = sympy.zeros(len(case["sub"]), len(case["sub"]))
+        for n, M in H.items():
+            Hin = Hin + M * sympy.Mul(*[x ** e for x, e in zip(syms, n)])
+        if all(x in Hin.free_symbols for x in syms):
+            kw["symbols"] = syms
+            one_subs = {x: 1 for x in syms}
+        else:
+            # a parameter that does not occur in the expression is (legitimately) rejected by the library: present the terms as a dict
+            Hin = dict(H)
     with warnings.catch_warnings():
         warnings.simplefilter("ignore")
-        res = block_diagonalize(dict(H), **kw)
+        res = block_diagonalize(Hin, **kw)
         dim = len(case["sub"])
         nparam = case["nparam"]
         out = {}
@@ -122,6 +137,8 @@ def run(case, names=("H_tilde", "U", "U†"), extra_kwargs=None, want_internal=F
                 for i in range(nb):
                     for j in range(nb):
                         v = S[(i, j) + tuple(n)]
+                        if one_subs and isinstance(v, sympy.MatrixBase):
+                            v = v.subs(one_subs)   # Taylor-path values carry their monomial: coefficient * x**n
                         B = from_value(v, (sizes[i], sizes[j]))
                         for a in range(sizes[i]):
                             for b in range(sizes[j]):
